@@ -7,7 +7,12 @@ VERIF = os.path.dirname(os.path.dirname(os.path.abspath(__file__)))
 root = sys.argv[1]
 ids = sys.argv[2:] or sorted(d for d in os.listdir(root) if os.path.isdir(os.path.join(root, d)))
 checks = [c["property_id"] for c in json.load(open(os.path.join(VERIF, "MANIFEST.json")))["checks"]]
-seeds = [os.path.join(root, p, k) for p in ids for k in sorted(os.listdir(os.path.join(root, p))) if os.path.exists(os.path.join(root, p, k, "patch.diff"))]
+seeds = []
+for p in ids:
+    if "/" in p:                     # one refactoring: C02/8
+        seeds.append(os.path.join(root, p))
+    else:
+        seeds += [os.path.join(root, p, k) for k in sorted(os.listdir(os.path.join(root, p))) if os.path.exists(os.path.join(root, p, k, "patch.diff"))]
 
 def run(seed):
     d = tempfile.mkdtemp(prefix="vr.")
@@ -29,7 +34,7 @@ def run(seed):
     finally:
         shutil.rmtree(d, ignore_errors=True)
 
-with ThreadPoolExecutor(max_workers=6) as ex:
+with ThreadPoolExecutor(max_workers=int(os.environ.get('VERIF_JOBS', '14'))) as ex:
     res = list(ex.map(run, seeds))
 bad = 0
 for seed, out in res:
